@@ -168,7 +168,7 @@ def roll_setup(name, year, rolls, month=0):
     return chain, start, end
 
 
-def run_roll(name, year, rolls, stride, phase, script, spread, threshold, calendar_days, month=0, fractional=True, late=False, delay=0):
+def run_roll(name, year, rolls, stride, phase, script, spread, threshold, calendar_days, month=0, fractional=True, late=False, delay=0, feed="events"):
     chain, start, end = roll_setup(name, year, rolls, month)
     days_ = bdays(start, end, calendar_days)[phase::stride]
     # `late`: decisions are taken at 23:30 of the previous day with a latency of one hour, and every contract is re-quoted at
@@ -206,7 +206,16 @@ def run_roll(name, year, rolls, stride, phase, script, spread, threshold, calend
                 evs.append(EventNBBO(g + exec_shift, c, mid2 - spread * base / 2, mid2 + spread * base / 2))
     reset_clock()
     tr = Transmitter(list(days_))
-    tr.add_events(evs)
+    if feed == "prices":
+        # the same quotes handed over as a table of mid prices (Transmitter.add_prices): every row of every column is a quote,
+        # also the rows of a contract between its last trading date and its expiry
+        import pandas as pd
+        table = {}
+        for e in evs:
+            table.setdefault(e.contract, {})[e.time] = (e.bid_price + e.ask_price) / 2
+        tr.add_prices(pd.DataFrame({c: pd.Series(v) for c, v in table.items()}).sort_index())
+    else:
+        tr.add_events(evs)
     env = TradingEnv(BoxPortfolio([chain], -2.0, 2.0, margin=threshold, fractional=fractional), transmitter=tr, initial_cash=1e7,
                      latency=3600 if late else 0, steps_delay=delay)
     try:
@@ -258,10 +267,13 @@ def run_roll(name, year, rolls, stride, phase, script, spread, threshold, calend
                     msgs.append("decision at %s: position %r in lead %s x multiplier x %r = %r, target %r x NLV %r = %r"
                                 % (D, q, lead.symbol, exec_px, q * mult * exec_px, w, rb.context_pre.nlv, w * rb.context_pre.nlv))
             for t in rb.trades:
-                if not (as_dt(t.contract.last_trading_date) > D) and t.quantity * (hq.get(t.contract, 0.0) or 0) != 0:
-                    pass
                 if t.contract is not lead and hq.get(t.contract, 0.0) != 0:
                     msgs.append("trade in non-lead %s left a position" % t.contract.symbol)
+                # "at prevailing quotes": every trade of the roll is priced at the latest quote fed for its contract
+                fed = px.get((t.contract.symbol, k - 1))
+                if fed is not None and (t.bid_price, t.ask_price) != fed:
+                    msgs.append("decision at %s: trade in %s priced at %r/%r, the prevailing quote fed for it is %r/%r"
+                                % (D, t.contract.symbol, t.bid_price, t.ask_price, fed[0], fed[1]))
         if msgs or done:
             break
     return msgs, rolled
@@ -287,6 +299,8 @@ def roll_cases(tier):
                                     out.append((name, year, rolls, stride, phase, script, spread, threshold, calendar_days, 0, False))
                                 if name == "ES" and stride in (1, 2) and spread and threshold == 0.0:
                                     out.append((name, year, rolls, stride, phase, script, spread, threshold, calendar_days, 0, True, True))
+                                if name == "ES" and not spread and threshold == 0.0:
+                                    out.append((name, year, rolls, stride, phase, script, spread, threshold, calendar_days, 0, True, False, 0, "prices"))
                                 if name == "ES" and stride in (1, 2) and spread and threshold == 0.0:
                                     for delay in (1, 2):      # decisions in flight across the roll
                                         out.append((name, year, rolls, stride, phase, script, spread, threshold, calendar_days, 0, True, False, delay))
